@@ -7,6 +7,7 @@ Every step is one public-API call on real npstructures code.  The *history* of a
 Injected actions (observers / force / freshen) are executed between steps; their results are
 dropped, their exceptions swallowed and counted.
 """
+import contextlib
 import io
 import operator
 import warnings
@@ -528,6 +529,21 @@ def _tolist(ra):
     for row in ra.tolist():
         out.append([repr(x) if isinstance(x, float) else x for x in row])
     return out
+
+
+@contextlib.contextmanager
+def ballast(n):
+    """Environment knob: the process already holds n live arrays, each with a live unread selection - a long-running
+    program.  Bookkeeping that only acts beyond some population (pruning of the unread-selection registry, caches)
+    is otherwise never exercised by programs of a dozen variables."""
+    keep = []
+    for i in range(int(n or 0)):
+        a = RaggedArray([[i, i + 1], [i + 2]])
+        keep.append((a, a[0:1]))
+    try:
+        yield
+    finally:
+        del keep[:]
 
 
 def run(program, schedule=None, width="int64", probe=None):
